@@ -558,6 +558,7 @@ func pedersenAll(r *runner, c counts) {
 			pedersenCase(r, c, p, i)
 			pedersenCase(r, c, e, i)
 		}
+		r.maybeFlush()
 	}
 	for i := 0; i < c.equiv; i++ {
 		pedersenEquivocate(r, k, i)
@@ -566,6 +567,7 @@ func pedersenAll(r *runner, c counts) {
 			pedersenEquivocate(r, p, i)
 			pedersenEquivocate(r, e, i)
 		}
+		r.maybeFlush()
 	}
 }
 
